@@ -53,6 +53,8 @@ type verifC36Cfg struct {
 	cid    bool // client-id set with a rule for client-a
 	net    bool // net set: a non-matching net, then two matching nets (the first must win)
 	node   bool // node set with a rule for the node
+	netx   bool // net set configured, but only with a net that does not match (with !net)
+	nodex  bool // node set configured, but only with a rule for another node (with !node)
 	suf    bool // the node is in the consensus nodes (suffrage set is always configured)
 	defmap bool // default map has a rule for the handler; otherwise it only knows another handler => built-in default
 }
@@ -89,6 +91,19 @@ func verifC36Setup(cfg verifC36Cfg, rs verifC36Rules) *RateLimitHandler {
 		cr := rs.cid
 		_ = rules.SetClientIDRuleSet(NewClientIDRateLimiterRuleSet(map[string]RateLimiterRuleMap{
 			verifC36ClientA: NewRateLimiterRuleMap(&cr, nil),
+		}))
+	}
+	if cfg.netx && !cfg.net {
+		nx := rs.netx
+		ns := NewNetRateLimiterRuleSet()
+		ns.Add(&net.IPNet{IP: net.IP{192, 168, 0, 0}, Mask: net.IPMask{255, 255, 255, 0}}, NewRateLimiterRuleMap(&nx, nil))
+		verifrt.Assert(ns.IsValid(nil) == nil, "C36.setup.net-set-valid")
+		_ = rules.SetNetRuleSet(ns)
+	}
+	if cfg.nodex && !cfg.node {
+		nr := rs.other
+		_ = rules.SetNodeRuleSet(NewNodeRateLimiterRuleSet(map[string]RateLimiterRuleMap{
+			"node-2-sas": NewRateLimiterRuleMap(&nr, nil),
 		}))
 	}
 	if cfg.net {
@@ -196,10 +211,23 @@ func verifC36ClientIDString(c int) string {
 }
 
 func verifC36Config() verifC36Cfg {
+	return verifC36ConfigX(false)
+}
+
+// verifC36ConfigX: with nonmatching, the net and node sets have a third possibility: configured,
+// but with nothing that matches the requests (only another net / only another node).
+func verifC36ConfigX(nonmatching bool) verifC36Cfg {
+	k := 2
+	if nonmatching {
+		k = 3
+	}
+	n, d := verifrt.NondetChoice("cfg.net-set", k), verifrt.NondetChoice("cfg.node-set", k)
 	return verifC36Cfg{
 		cid:    verifrt.NondetChoice("cfg.clientid-set", 2) == 1,
-		net:    verifrt.NondetChoice("cfg.net-set", 2) == 1,
-		node:   verifrt.NondetChoice("cfg.node-set", 2) == 1,
+		net:    n == 1,
+		netx:   n == 2,
+		node:   d == 1,
+		nodex:  d == 2,
 		suf:    verifrt.NondetChoice("cfg.node-in-suffrage", 2) == 1,
 		defmap: verifrt.NondetChoice("cfg.defaultmap-has-handler", 2) == 1,
 	}
@@ -223,7 +251,7 @@ func verifC36CheckRule(r verifC36Result, want RateLimiterRule, wantType, label s
 // every configuration, every client id, node known (learnt through a request on another
 // handler of the same address) or not.
 func VerifC36FirstRequest() {
-	cfg := verifC36Config()
+	cfg := verifC36ConfigX(true)
 	rs := verifC36NewRules(time.Second, 10)
 	h := verifC36Setup(cfg, rs)
 	if h == nil {
@@ -448,4 +476,78 @@ func VerifC36BucketMixed() {
 	}
 	verifrt.Reach("C36.mixed.returned")
 	verifC36CheckWindows(ev, "C36.mixed.allowed-under-a-rule-in-window<=burst+rate*window")
+}
+
+// VerifC36NodeLearnt: enforcement across a change of the applicable rule on one live limiter, with
+// the two special rules: the default map's rule for the handler and the node's rule are each
+// finite (2 tokens, one per interval), "nolimit" (rate.Inf) or "0" (nothing allowed). The node of
+// the address becomes known through one of the requests (as the node challenge does); before it the
+// default-map rule applies, after it the node rule. Per request: the rule that decided is the
+// highest-precedence one; per window and rule: allowed <= burst + rate*window (nothing under "0";
+// no bound under "nolimit").
+func VerifC36NodeLearnt() {
+	interval := 100 * time.Millisecond
+	mk := func(kind int, burst int) RateLimiterRule {
+		switch kind {
+		case 1:
+			return NoLimitRateLimiterRule()
+		case 2:
+			return LimitRateLimiterRule()
+		}
+		return NewRateLimiterRule(interval*time.Duration(burst), burst)
+	}
+	rs := verifC36NewRules(interval, 10)
+	dk, nk := verifrt.NondetChoice("defaultmap-rule-kind", 3), verifrt.NondetChoice("node-rule-kind", 3)
+	rs.defmap, rs.node = mk(dk, 2), mk(nk, 3)
+	cfg := verifC36Cfg{defmap: true, node: true}
+	h := verifC36Setup(cfg, rs)
+	if h == nil {
+		return
+	}
+	addr := verifC36UDPAddr()
+	N := verifrt.Bound("learnt-stream", 4, 6)
+	learnAt := verifrt.NondetChoice("learn-at", 2) // the request whose handler makes the node known
+	known := false
+	ev := make([]verifC36Event, 0, N)
+	for i := 0; i < N; i++ {
+		if i > 0 {
+			if d := verifC36Gap(interval); d > 0 {
+				time.Sleep(d)
+			}
+		}
+		want, wt := rs.defmap, "defaultmap"
+		if known {
+			want, wt = rs.node, "node"
+		}
+		var e verifC36Event
+		e.before = time.Now()
+		r := verifC36Request(h, addr, verifC36Handler, 0, i == learnAt)
+		e.after = time.Now()
+		verifrt.Assert(r.hasRes, "C36.setup.result-in-context")
+		verifrt.Assert(r.called == (r.err == nil) && r.called == r.allowed, "C36.setup.handler-runs-iff-allowed")
+		if i == learnAt && !r.called {
+			// the request that would have made the node known was refused: the node stays unknown
+			verifrt.Reach("C36.learnt.learning-request-refused")
+			learnAt = i + 1
+		} else if i == learnAt {
+			known = true
+		}
+		class := ""
+		if r.limiter != verifC36RuleName(want) {
+			class = "(want=" + wt + ",got=" + r.rtype + ")"
+		}
+		verifrt.Assert(r.limiter == verifC36RuleName(want),
+			"C36.learnt.uses-clientid-rule-else-first-matching-net-else-node-else-suffrage-else-default-map-else-built-in"+class)
+		e.allowed, e.limit, e.burst = r.called, want.Limit, want.Burst
+		if want.Limit == rate.Inf {
+			verifrt.Reach("C36.learnt.request-under-nolimit-rule")
+		} else {
+			if want.Limit == 0 {
+				verifrt.Reach("C36.learnt.request-under-the-0-rule")
+			}
+			ev = append(ev, e)
+		}
+	}
+	verifrt.Reach("C36.learnt.returned")
+	verifC36CheckWindows(ev, "C36.learnt.allowed-under-a-rule-in-window<=burst+rate*window")
 }
